@@ -28,21 +28,26 @@ PlanQuick == Cross \o <<
   E("cssa",   {2, 3, 4, 5}, {" "}, 2, 1),
   E("cssb",   {2, 3, 4, 5}, {" "}, 2, 1) >>
 
-(* thorough: <= 4 tokens (empty frame), <= 3 tokens inside every frame, both separators *)
+(* thorough: <= 4 tokens of the six large alphabets (empty frame), <= 3 tokens inside every frame and
+   unseparated *)
 PlanThorough == Cross \o <<
-  E("jscore", {1}, {" ", ""}, 4, 2),
-  E("jslit",  {1}, {" ", ""}, 4, 2),
+  E("jscore", {1}, {" "}, 4, 2),
+  E("jscore", {1}, {""}, 3, 2),
   E("jsdecl", {1}, {" "}, 4, 2),
   E("ts",     {1}, {" "}, 4, 2),
-  E("jsx",    {1, 2, 3, 4}, {" ", ""}, 4, 2),
-  E("cssa",   {1}, {" ", ""}, 4, 2),
-  E("cssb",   {1}, {" "}, 4, 2),
-  E("json",   {1, 2, 3}, {" "}, 5, 2),
+  E("cssa",   {1}, {" "}, 4, 2),
+  E("jslit",  {1}, {" ", ""}, 3, 2),
+  E("cssb",   {1}, {" ", ""}, 3, 2),
+  E("cssa",   {1}, {""}, 3, 2),
+  E("jsx",    {1, 2, 3, 4}, {" "}, 4, 2),
+  E("jsx",    {1, 2, 3}, {""}, 3, 2),
+  E("json",   {1, 2, 3}, {" "}, 4, 2),
   E("smap",   {1, 2, 3, 4}, {" "}, 3, 1),
-  E("cfg",    {1, 2, 3, 4, 5, 6, 7, 8}, {" "}, 3, 1),
+  E("cfg",    {1, 2, 3, 4, 5, 6, 7, 8}, {" "}, 2, 1),
+  E("cfg",    {2, 5}, {" "}, 3, 1),
   E("jscore", {2, 3, 4, 5, 6, 7, 8}, {" "}, 3, 1),
   E("jsdecl", {2, 3, 4, 5, 6, 7, 8}, {" "}, 3, 1),
-  E("jslit",  {2, 3, 6}, {" ", ""}, 3, 1),
+  E("jslit",  {2, 3, 6}, {" "}, 3, 1),
   E("ts",     {2, 3, 4, 5, 6}, {" "}, 3, 1),
   E("cssa",   {2, 3, 4, 5}, {" "}, 3, 1),
   E("cssb",   {2, 3, 4, 5}, {" "}, 3, 1) >>
